@@ -4,6 +4,7 @@ import (
 	"context"
 	"fmt"
 	"sort"
+	"strings"
 	"sync/atomic"
 	"time"
 
@@ -112,6 +113,23 @@ func c10MutationsAt(n descNode) []string {
 		if _, isType := m["type_id"]; isType {
 			// replace this type description by a complete description of another type found elsewhere in the tree
 			muts = append(muts, "graft:type", "graft:type", "graft:type")
+		}
+	}
+	if m, ok := n.val.(map[string]any); ok {
+		if _, isProp := m["type"]; isProp {
+			// a property description: give it a default (whether or not it has one) that cannot be parsed, or
+			// one that supplies sub-values - the shapes from which a default can lead back to itself
+			muts = append(muts, "propdefault:unparsable", "propdefault:{}", "propdefault:list")
+			for i := 0; i < 10; i++ {
+				muts = append(muts, fmt.Sprintf("propdefault:nest#%d", i)) // (property name, inner value) combinations
+			}
+		}
+		if fmt.Sprint(m["type_id"]) == "object" {
+			if len(anyMap(m["properties"])) > 0 {
+				// two cooperating edits: the object takes the ID of another object AND one of its properties gets an
+				// unparsable default (anything that remembers objects by ID instead of identity loses track of it)
+				muts = append(muts, "objid+baddefault")
+			}
 		}
 	}
 	if k, ok := n.key.(string); ok {
@@ -253,6 +271,75 @@ func c10Apply(root any, idx int, mut string, r *wk.Rand) (string, bool) {
 		setNode(n, "")
 	case "repoint:namespace":
 		setNode(n, "some-other-namespace")
+	case "propdefault:unparsable", "propdefault:{}", "propdefault:list",
+		"propdefault:nest#0", "propdefault:nest#1", "propdefault:nest#2", "propdefault:nest#3", "propdefault:nest#4",
+		"propdefault:nest#5", "propdefault:nest#6", "propdefault:nest#7", "propdefault:nest#8", "propdefault:nest#9":
+		m, _ := n.val.(map[string]any)
+		var names []string
+		for _, x := range nodes {
+			if x.key == "properties" {
+				for k := range anyMap(x.val) {
+					names = append(names, k)
+				}
+			}
+		}
+		sort.Strings(names)
+		name := "a"
+		if len(names) > 0 {
+			name = wk.Pick(r, names)
+		}
+		switch {
+		case mut == "propdefault:unparsable":
+			m["default"] = "{not json"
+		case mut == "propdefault:{}":
+			m["default"] = "{}"
+		case strings.HasPrefix(mut, "propdefault:nest#"):
+			i := int(mut[len(mut)-1] - '0')
+			if len(names) > 0 {
+				name = names[(i+r.Intn(len(names)))%len(names)]
+				if len(names) <= 2 {
+					name = names[i%len(names)] // small descriptions: the full product
+				}
+			}
+			inners := []string{"{}", "[]", "[{}]", `{"` + name + `": {}}`, "1"}
+			inner := inners[(i/2)%len(inners)]
+			m["default"] = `{"` + name + `": ` + inner + `}`
+		default:
+			m["default"] = `[{}, {"` + name + `": {}}]`
+		}
+	case "objid+baddefault":
+		m, _ := n.val.(map[string]any)
+		var ids []string
+		for _, x := range nodes {
+			if x.key == "id" || x.key == "root" {
+				if sv, is := x.val.(string); is && sv != m["id"] {
+					ids = append(ids, sv)
+				}
+			}
+		}
+		sort.Strings(ids)
+		pm := anyMap(m["properties"])
+		if len(ids) == 0 || len(pm) == 0 {
+			ok = false
+			break
+		}
+		m["id"] = wk.Pick(r, ids)
+		pnames := make([]string, 0, len(pm))
+		for k := range pm {
+			pnames = append(pnames, k)
+		}
+		sort.Strings(pnames)
+		done := false
+		for _, k := range pnames {
+			if pd, is := pm[k].(map[string]any); is {
+				if td, is2 := pd["type"].(map[string]any); is2 && td["type_id"] != "string" {
+					pd["default"] = "{not json"
+					done = true
+					break
+				}
+			}
+		}
+		ok = done
 	case "default:unparsable":
 		setNode(n, "{not json")
 	case "default:wrongtype":
@@ -627,6 +714,24 @@ type lazyCanon struct{ v any }
 
 func (l lazyCanon) MarshalJSON() ([]byte, error) {
 	return []byte(fmt.Sprintf("%q", clipStr(cmpx.Canon(l.v), 2500))), nil
+}
+
+// anyMap views a description node that is a map with string keys (map[string]any or map[any]any) as one.
+// The values are shared with the original, so editing a nested map edits the description.
+func anyMap(v any) map[string]any {
+	switch x := v.(type) {
+	case map[string]any:
+		return x
+	case map[any]any:
+		out := map[string]any{}
+		for k, e := range x {
+			if ks, ok := k.(string); ok {
+				out[ks] = e
+			}
+		}
+		return out
+	}
+	return nil
 }
 
 func mutClass(m string) string {
